@@ -459,6 +459,7 @@ def generate(tier, seed):
     for i, spec in enumerate(base_specs(n, seed, tier)):
         cases.append({"cid": f"twins-{i}", "family": "twins", "kind": "twins", "spec": spec, "rng": seed * 1000 + i,
                       "ncand": 12 if tier == "quick" else 40, "ntwins": 6 if tier == "quick" else 12})
+    cases.append({"cid": "cross-kind-names", "family": "cross-kind", "kind": "cross_kind"})
     m = 20 if tier == "quick" else 80
     for i, spec in enumerate(base_specs(m, seed + 1, tier)):
         cases.append({"cid": f"prefix-{i}", "family": "history", "kind": "prefix", "spec": spec, "rng": seed * 1000 + i,
@@ -466,7 +467,70 @@ def generate(tier, seed):
     return cases
 
 
+def _cross_kind_problem(scenario, names):
+    """hand-built (the Spec model identifies elements by name alone and cannot express this): elements of DIFFERENT kinds
+    carrying the same name - a worker and a cumulative worker, a task and a worker, a buffer and a task"""
+    wn, cn, tn, bn = names
+    pb = ps.SchedulingProblem(name=f"cross_{scenario}", horizon=10)
+    t1 = ps.FixedDurationTask(name=tn, duration=2)
+    w = ps.Worker(name=wn)
+    cu = ps.CumulativeWorker(name=cn, size=2)
+    t1.add_required_resource(w)
+    if scenario == "fixed":
+        t2 = ps.FixedDurationTask(name="t2", duration=4)
+    else:
+        t2 = ps.VariableDurationTask(name="t2", min_duration=1, max_duration=4)
+    t2.add_required_resource(cu)
+    bf = ps.NonConcurrentBuffer(name=bn, initial_level=3, lower_bound=0)
+    ps.TaskUnloadBuffer(task=t1, buffer=bf, quantity=2)
+    i1 = ps.IndicatorResourceUtilization(resource=w)
+    i2 = ps.IndicatorResourceUtilization(resource=cu)
+    ps.IndicatorNumberTasksAssigned(resource=w)
+    ps.IndicatorNumberTasksAssigned(resource=cu)
+    if scenario == "maximize":
+        ps.ObjectiveMaximizeIndicator(name="obj", target=i2, weight=1)
+    elif scenario == "pinned":
+        ps.TaskStartAt(task=t1, value=3)
+        ps.TaskStartAt(task=t2, value=1)
+    sol = ps.SchedulingSolver(problem=pb, max_time=30).solve()
+    if not sol:
+        return ("nosolution",)
+    return ("sat", sol.tasks[tn].end - sol.tasks[tn].start, sol.tasks["t2"].end - sol.tasks["t2"].start,
+            (sol.tasks[tn].start, sol.tasks["t2"].start) if scenario == "pinned" else None)
+
+
+def run_cross_kind(case):
+    acc = common.Acc(PREFIXES)
+    for scenario in ("fixed", "maximize", "pinned"):
+        ref = None
+        for label, names in (("distinct", ("w0", "cu", "t1", "bf")), ("worker=cumulative", ("A", "A", "t1", "bf")),
+                             ("task=worker", ("A", "cu", "A", "bf")), ("buffer=task", ("w0", "cu", "A", "A")),
+                             ("all", ("A", "A", "A", "A"))):
+            ins.reset_case()
+            try:
+                with warnings.catch_warnings():
+                    warnings.simplefilter("ignore")
+                    sig = _cross_kind_problem(scenario, names)
+            except Exception as exc:  # pylint: disable=broad-except
+                sig = ("exception", type(exc).__name__, str(exc)[:120])
+            acc.executions += 1
+            if ref is None:
+                ref = sig
+                continue
+            same = sig == ref
+            acc.count(acc.clauses, f"C14.twin.cross-kind:{'T' if same else 'F'}")
+            acc.sigs.add(common.h([scenario, label]))
+            if not same:
+                acc.violation("C14.verdict_differs" if sig[0] != ref[0] else "C14.optimum_differs", "differs",
+                              {"twin": "rename-cross-kind", "same_name": label, "scenario": scenario},
+                              {"distinct_names": ref, "shared_name": sig})
+    acc.sample = {"scenarios": ["fixed", "maximize", "pinned"], "reference": list(ref)}
+    return acc.result()
+
+
 def run_case(case):
+    if case["kind"] == "cross_kind":
+        return run_cross_kind(case)
     if case["kind"] == "twins":
         return run_twins(case)
     return run_prefix(case)
